@@ -30,6 +30,8 @@ import CookModel.Lemmas.DiagPlaceFam
 import CookModel.Lemmas.MetaValidator
 import CookModel.Lemmas.DiagPlaceDocInst
 import CookModel.Lemmas.DiagEventKinds
+import CookModel.Lemmas.DiagPlaceDocQty
+import CookModel.Lemmas.DiagPlaceName
 /-
   C07  Diagnostics are sound, complete and placed on the offending construct.
 
@@ -3551,5 +3553,404 @@ example : (∃ d ∈ c07v_ingredientEventDiags C01_toyEnv [] C07_evRefSalt C07_e
   ⟨⟨⟨.error, .analysis, "note-in-reference", [⟨21, 22⟩, ⟨8, 8⟩]⟩, by decide, rfl⟩, rfl⟩
 example : ((⟨Modifiers.REF ||| Modifiers.NEW⟩ : Modifiers).bits &&&
     (Modifiers.RECIPE ||| Modifiers.HIDDEN ||| Modifiers.NEW)) ≠ 0 := by decide
+
+-- ===== w8c07pieces =====
+/-! ## The quantity family planted in a whole DOCUMENT (wave 8)
+
+  `C07_planted_document` takes the construct as a piece on every actual block spelling its specification
+  tokens (`hB`).  Wave 7 supplied that for the timer without quantity; here for every braces component whose
+  QUANTITY raises the diagnostic — generic in the reading of the quantity tokens by `parse_quantity`
+  (`C07_planted_document_quantity_family`), then the three catalogued families: zero denominator `@x{1/0}`,
+  unit on cookware `#pot{1%kg}`, timer without unit `~{5}` (followed by anything, a note included).  The conditions
+  are on the SPECIFICATION tokens (kinds and texts); labels are positions of the actual tokens, which are byte
+  offsets of the document (`C07_planted_document`: the block is a contiguous part of the lexer's token list).
+  `Lemmas/DiagPlaceDocQty.lean`. -/
+
+/-- **A component whose quantity raises diagnostics, planted in a document: generic in the reading.**  The reading:
+    on EVERY token list `Q` spelling the specified quantity tokens `QS`, from every state with these tables and
+    extensions, `parse_quantity` pushes exactly `l Q` and returns a quantity satisfying `R Q`.  Then on every actual
+    block `tpre ++ tB ++ tpost` spelling the step, the construct is a piece at its position:
+    * ingredient `@name{Q}` (no modifiers, no alias separator, the name shows a non-blank character in a plain
+      token, not followed by `(`): exactly `l Q`, then the ingredient carrying the quantity read (`c07x_ingrQtySpec`);
+    * cookware `#name{Q}` likewise, with `cookware-unit` after `l Q` iff the quantity read has a unit (`c07x_cwQtySpec`);
+    * timer `~ mods name {Q}` followed by ANYTHING: the head diagnostics, the note warning iff `(` … `)` follows,
+      `l Q`, then `timer-missing-unit` iff the quantity read has no unit, then the timer (`c07x_timerQtySpec`).
+    Each conclusion is the hypothesis `hB` of `C07_planted_document`. -/
+theorem C07_planted_document_quantity_family (env : Env) (pre post : List SegX) (tmS : Tok) (nameS : List Tok)
+    (tobS : Tok) (QS : List Tok) (tcbS : Tok) (hne : ∃ t ∈ QS, isPadK t = false)
+    (l : List Tok → List (Ev α)) (R : List Tok → ParsedQuantity α → Prop)
+    (hQ : ∀ Q, Spells Q QS → ∀ sq : BP α, sq.cs = env.cs → sq.ext = env.ext →
+      Sat (parseQuantity (α := α) Q) sq (fun r s' => Pushed (l Q) sq s' ∧ R Q r)) :
+    (PlShape env.ext .at tmS [] nameS tobS QS tcbS (post.flatMap SegX.spell) →
+      (env.ext.has Gen.EXT_COMPONENT_ALIAS = false ∨ ∀ t ∈ nameS, t.kind ≠ .or) →
+      (∃ t ∈ nameS, plainKind t.kind = true ∧ NBs env.cs t.text) →
+      ∀ (T tpre tB tpost : List Tok), T = tpre ++ (tB ++ tpost) → Spells tpre (pre.flatMap SegX.spell) →
+        Spells tB (c07p_comp tmS [] nameS tobS QS tcbS) → Spells tpost (post.flatMap SegX.spell) →
+        RunAt (baseOff T) T →
+        PlPieceAt (α := α) T env.cs env.ext tpre ⟨tB, c07x_ingrQtySpec nameS QS l R T tpre tB⟩) ∧
+    (PlShape env.ext .hash tmS [] nameS tobS QS tcbS (post.flatMap SegX.spell) →
+      (env.ext.has Gen.EXT_COMPONENT_ALIAS = false ∨ ∀ t ∈ nameS, t.kind ≠ .or) →
+      (∃ t ∈ nameS, plainKind t.kind = true ∧ NBs env.cs t.text) →
+      ∀ (T tpre tB tpost : List Tok), T = tpre ++ (tB ++ tpost) → Spells tpre (pre.flatMap SegX.spell) →
+        Spells tB (c07p_comp tmS [] nameS tobS QS tcbS) → Spells tpost (post.flatMap SegX.spell) →
+        RunAt (baseOff T) T →
+        PlPieceAt (α := α) T env.cs env.ext tpre ⟨tB, c07x_cwQtySpec nameS QS l R T tpre tB⟩) ∧
+    (∀ msS : List Tok, PlShapeN env.ext .tilde tmS msS nameS tobS QS tcbS →
+      ∀ (T tpre tB tpost : List Tok), T = tpre ++ (tB ++ tpost) → Spells tpre (pre.flatMap SegX.spell) →
+        Spells tB (c07p_comp tmS msS nameS tobS QS tcbS) → Spells tpost (post.flatMap SegX.spell) →
+        RunAt (baseOff T) T →
+        PlPieceAt (α := α) T env.cs env.ext tpre
+          ⟨tB, c07x_timerQtySpec env.cs env.ext msS nameS QS l R T tpre tB⟩) :=
+  ⟨fun sh ha hname T tpre tB tpost hT _ hsB hpost hrun =>
+      c07x_ingredient_qty_pieceAt env.cs env.ext tmS nameS tobS QS tcbS _ sh ha hname hne l R hQ T tpre tB tpost hT hsB
+        hpost hrun,
+   fun sh ha hname T tpre tB tpost hT _ hsB hpost hrun =>
+      c07x_cookware_qty_pieceAt env.cs env.ext tmS nameS tobS QS tcbS _ sh ha hname hne l R hQ T tpre tB tpost hT hsB
+        hpost hrun,
+   fun msS sh T tpre tB tpost hT _ hsB _ hrun =>
+      c07x_timer_qty_pieceAt env.cs env.ext tmS msS nameS tobS QS tcbS sh hne l R hQ T tpre tB tpost hT hsB hrun⟩
+
+/-- the `division-by-zero` event of actual quantity tokens `a / b`: labelled from the start of the first token to
+    the end of the last -/
+def C07_zeroDenEvs (Q : List Tok) : List (Ev α) :=
+  [.error ⟨.error, .parse, "division-by-zero",
+    [⟨(Q.head?.getD dummyTok).start, (Q.getLast?.getD dummyTok).stop⟩]⟩]
+
+/-- the reading of `a/b` with `b` spelling zero, on every token list spelling it -/
+theorem C07_zero_denominator_reading (cs : CharSpec) (e : Ext) (aS slS bS : Tok) (ha : aS.kind = .int)
+    (hsl : slS.kind = .slash) (hb : bS.kind = .int) (hau : digitsToNat aS.text ≤ u32Max)
+    (hb0 : digitsToNat bS.text = 0) :
+    ∀ Q, Spells Q [aS, slS, bS] → ∀ sq : BP α, sq.cs = cs → sq.ext = e →
+      Sat (parseQuantity (α := α) Q) sq (fun r s' => Pushed (C07_zeroDenEvs Q) sq s' ∧
+        (r.quantity.val.unit = none ∧ r.unitSep = none)) := by
+  intro Q hs sq _ _
+  obtain ⟨a, r1, rfl, ka, ta, h1⟩ := hs.cons_inv
+  obtain ⟨sl, r2, rfl, ks, -, h2⟩ := h1.cons_inv
+  obtain ⟨b, rfl, kb, tb⟩ := h2.single_inv
+  have ha' : a.kind = .int := ka.trans ha
+  have hsl' : sl.kind = .slash := ks.trans hsl
+  have hb' : b.kind = .int := kb.trans hb
+  have hz := (C07_zero_denominator (α := α) a sl b ha' hsl' hb' (by rw [ta]; exact hau) (by rw [tb]; exact hb0)
+    [] [a, sl, b] [] (by simp) (by simp) rfl rfl
+    (by simp [notWsComment, isWsComment, ha', hsl', hb']) (sq.ext.has Gen.EXT_RANGE_VALUES)
+    (Or.inr (by intro t ht'; simp at ht'; rcases ht' with rfl | rfl | rfl <;> simp [ha', hsl', hb']))).2.2
+  simp only [List.nil_append, List.append_nil] at hz
+  exact c07p_parseQuantity_err_num a [sl, b] sq _ (by simp [isWsComment, ha']) (by simp [ha'])
+    (by intro t ht'; simp at ht'; rcases ht' with rfl | rfl | rfl <;> simp [ha', hsl', hb']) hz
+
+/-- **Instance: zero denominator `@name{a/b}` planted in a document** (`b` spells zero, `a` fits `u32`; no
+    modifiers, no alias separator, a name showing a non-blank character, not followed by `(`).  On every actual block
+    the construct's events are EXACTLY `division-by-zero` (error, parse) labelled from the start of the actual `a` to
+    the end of the actual `b` — byte offsets of the document, inside the construct —, then the ingredient (quantity
+    without unit) on the byte range of the construct.  With `C07_planted_document`: the report of `parse` is exactly
+    that error, no output, invalid. -/
+theorem C07_planted_document_zero_denominator (env : Env) (pre post : List SegX) (tmS : Tok) (nameS : List Tok)
+    (tobS aS slS bS tcbS : Tok)
+    (sh : PlShape env.ext .at tmS [] nameS tobS [aS, slS, bS] tcbS (post.flatMap SegX.spell))
+    (halias : env.ext.has Gen.EXT_COMPONENT_ALIAS = false ∨ ∀ t ∈ nameS, t.kind ≠ .or)
+    (hname : ∃ t ∈ nameS, plainKind t.kind = true ∧ NBs env.cs t.text)
+    (ha : aS.kind = .int) (hsl : slS.kind = .slash) (hb : bS.kind = .int)
+    (hau : digitsToNat aS.text ≤ u32Max) (hb0 : digitsToNat bS.text = 0) :
+    ∀ (T tpre tB tpost : List Tok), T = tpre ++ (tB ++ tpost) → Spells tpre (pre.flatMap SegX.spell) →
+      Spells tB (c07p_comp tmS [] nameS tobS [aS, slS, bS] tcbS) → Spells tpost (post.flatMap SegX.spell) →
+      RunAt (baseOff T) T →
+      PlPieceAt (α := α) T env.cs env.ext tpre ⟨tB, c07x_ingrQtySpec nameS [aS, slS, bS] C07_zeroDenEvs
+        (fun _ q => q.quantity.val.unit = none ∧ q.unitSep = none) T tpre tB⟩ :=
+  (C07_planted_document_quantity_family (α := α) env pre post tmS nameS tobS [aS, slS, bS] tcbS
+    ⟨aS, by simp, by simp [isPadK, ha]⟩ _ _
+    (C07_zero_denominator_reading env.cs env.ext aS slS bS ha hsl hb hau hb0)).1 sh halias hname
+
+/-- what a quantity `value % unit` read quietly looks like on actual tokens `Q` spelling `vtS ++ % :: utS`: the
+    unit text is assembled from the actual unit tokens right after the actual `%`, and the separator is that `%` -/
+def C07_pctUnitRead (vtS utS : List Tok) (Q : List Tok) (q : ParsedQuantity α) : Prop :=
+  ∃ (vt : List Tok) (pct : Tok) (ut : List Tok), Q = vt ++ pct :: ut ∧ Spells vt vtS ∧ Spells ut utS ∧
+    q.quantity.val.unit = some (buildText pct.stop ut) ∧ q.unitSep = some ⟨pct.start, pct.stop⟩
+
+/-- the reading of `number % unit` (a well-formed number or range, a unit showing a non-blank character) -/
+theorem C07_pct_unit_reading (cs : CharSpec) (e : Ext) (v : AVal) (p : VPad) (pctS t0S : Tok) (utS : List Tok)
+    (hv : v.ok cs = true) (hp : p.ok cs = true) (hnt : v.isText = false)
+    (hext : v.isRange = true → e.has Gen.EXT_RANGE_VALUES = true)
+    (h0 : (spellVal v p).head? = some t0S) (hws : isWsComment t0S.kind = false) (heq : t0S.kind ≠ .eq)
+    (hvp : ∀ t ∈ spellVal v p, t.kind ≠ .percent) (hpct : pctS.kind = .percent)
+    (hunit : ∃ t ∈ utS, plainKind t.kind = true ∧ NBs cs t.text) :
+    ∀ Q, Spells Q (spellVal v p ++ pctS :: utS) → ∀ sq : BP α, sq.cs = cs → sq.ext = e →
+      Sat (parseQuantity (α := α) Q) sq (fun r s' => Pushed [] sq s' ∧ C07_pctUnitRead (spellVal v p) utS Q r) := by
+  intro Q hs sq h1 h2
+  subst h1 h2
+  obtain ⟨vt, pct, ut, rfl, kv, kp, ku⟩ := c07x_pct_spells_inv hs
+  obtain ⟨t0, h0', k0⟩ := c07x_head_transfer kv h0
+  refine Sat.mono (c07p_parseQuantity_pct_sep vt ut pct t0 sq h0' (by rw [k0]; exact hws) (by rw [k0]; exact heq)
+    (c07d_kind_of_spells kv (fun k => k ≠ .percent) hvp) (kp.trans hpct)
+    (Or.inl ⟨_, rt_numOrRange v p hv hp hnt _ hext vt kv⟩) (c07x_name_transfer ku hunit _)) ?_
+  intro r s' h
+  exact ⟨h.1.pushed, vt, pct, ut, rfl, kv, ku, h.2.1, h.2.2⟩
+
+/-- **Instance: a unit on a cookware item `#name{number%unit}` planted in a document** (the value a well-formed
+    number, or a range under RANGE_VALUES; a unit showing a non-blank character; no modifiers, no alias separator,
+    a name showing a non-blank character, not followed by `(`).  On every actual block the construct's events are
+    EXACTLY `cookware-unit` (error, parse), labelled from the start of the actual `%` to the end of the unit text —
+    second clause: that is what `c07f_cwUnitEvs` of the spec is for every quantity read so —, then the cookware item
+    on the byte range of the construct. -/
+theorem C07_planted_document_cookware_unit (env : Env) (pre post : List SegX) (tmS : Tok) (nameS : List Tok)
+    (tobS tcbS : Tok) (v : AVal) (p : VPad) (pctS t0S : Tok) (utS : List Tok)
+    (sh : PlShape env.ext .hash tmS [] nameS tobS (spellVal v p ++ pctS :: utS) tcbS (post.flatMap SegX.spell))
+    (halias : env.ext.has Gen.EXT_COMPONENT_ALIAS = false ∨ ∀ t ∈ nameS, t.kind ≠ .or)
+    (hname : ∃ t ∈ nameS, plainKind t.kind = true ∧ NBs env.cs t.text)
+    (hv : v.ok env.cs = true) (hp : p.ok env.cs = true) (hnt : v.isText = false)
+    (hext : v.isRange = true → env.ext.has Gen.EXT_RANGE_VALUES = true)
+    (h0 : (spellVal v p).head? = some t0S) (hws : isWsComment t0S.kind = false) (heq : t0S.kind ≠ .eq)
+    (hvp : ∀ t ∈ spellVal v p, t.kind ≠ .percent) (hpct : pctS.kind = .percent)
+    (hunit : ∃ t ∈ utS, plainKind t.kind = true ∧ NBs env.cs t.text) :
+    (∀ (T tpre tB tpost : List Tok), T = tpre ++ (tB ++ tpost) → Spells tpre (pre.flatMap SegX.spell) →
+      Spells tB (c07p_comp tmS [] nameS tobS (spellVal v p ++ pctS :: utS) tcbS) →
+      Spells tpost (post.flatMap SegX.spell) → RunAt (baseOff T) T →
+      PlPieceAt (α := α) T env.cs env.ext tpre ⟨tB, c07x_cwQtySpec nameS (spellVal v p ++ pctS :: utS)
+        (fun _ => []) (C07_pctUnitRead (spellVal v p) utS) T tpre tB⟩) ∧
+    (∀ (Q : List Tok) (q : ParsedQuantity α), C07_pctUnitRead (spellVal v p) utS Q q →
+      ∃ (vt : List Tok) (pct : Tok) (ut : List Tok), Q = vt ++ pct :: ut ∧
+        c07f_cwUnitEvs q =
+          [.error ⟨.error, .parse, "cookware-unit", [⟨pct.start, (buildText pct.stop ut).span.stop⟩]⟩]) := by
+  refine ⟨(C07_planted_document_quantity_family (α := α) env pre post tmS nameS tobS _ tcbS
+    ⟨pctS, by simp, by simp [isPadK, hpct]⟩ _ _
+    (C07_pct_unit_reading env.cs env.ext v p pctS t0S utS hv hp hnt hext h0 hws heq hvp hpct hunit)).2.1
+      sh halias hname, ?_⟩
+  rintro Q q ⟨vt, pct, ut, rfl, -, -, hu, hsep⟩
+  refine ⟨vt, pct, ut, rfl, ?_⟩
+  have := c07f_cwUnitEvs_of q pct (buildText pct.stop ut) false (by simpa using hu) hsep
+  simpa using this
+
+/-- the reading of a well-formed number (or range) without `%`: nothing is pushed, no unit -/
+theorem C07_no_unit_reading (cs : CharSpec) (e : Ext) (v : AVal) (p : VPad) (t0S : Tok) (tlS : List Tok)
+    (hv : v.ok cs = true) (hp : p.ok cs = true) (hnt : v.isText = false)
+    (hext : v.isRange = true → e.has Gen.EXT_RANGE_VALUES = true)
+    (hsp : spellVal v p = t0S :: tlS) (hws : isWsComment t0S.kind = false) (heq : t0S.kind ≠ .eq)
+    (hk : ∀ t ∈ t0S :: tlS, t.kind ≠ .percent ∧ t.kind ≠ .word ∧ t.kind ≠ .ws) :
+    ∀ Q, Spells Q (t0S :: tlS) → ∀ sq : BP α, sq.cs = cs → sq.ext = e →
+      Sat (parseQuantity (α := α) Q) sq (fun r s' => Pushed [] sq s' ∧ r.quantity.val.unit = none) := by
+  intro Q hs sq h1 h2
+  subst h1 h2
+  have hk' := c07d_kind_of_spells hs (fun k => k ≠ .percent ∧ k ≠ .word ∧ k ≠ .ws) hk
+  have hnum := rt_numOrRange (α := α) v p hv hp hnt _ hext Q (by rw [hsp]; exact hs)
+  obtain ⟨t0, tl, rfl, k0, -, -⟩ := hs.cons_inv
+  exact Sat.mono (parseQuantity_quiet_num t0 tl sq (by rw [k0]; exact hws) (by rw [k0]; exact heq) hk' ⟨_, hnum⟩)
+    (fun r s' h => ⟨h.1.pushed, h.2⟩)
+
+/-- **Instance: a timer without unit `~ mods name {number}` planted in a document** (the braces hold a well-formed
+    number, or a range under RANGE_VALUES, without blank, word or `%`; ANY modifiers / name; followed by ANYTHING, a
+    `(note)` included).  On every actual block the construct's events are EXACTLY `modifiers-not-allowed:timer`? ++
+    `alias-not-allowed:timer`? ++ `note-not-allowed:timer`? ++ `timer-missing-unit` (error, parse; labelled with the
+    position right after the value — second clause) ++ the timer on the byte range of the construct. -/
+theorem C07_planted_document_timer_no_unit (env : Env) (pre post : List SegX) (tmS : Tok) (msS nameS : List Tok)
+    (tobS tcbS : Tok) (v : AVal) (p : VPad) (t0S : Tok) (tlS : List Tok)
+    (sh : PlShapeN env.ext .tilde tmS msS nameS tobS (t0S :: tlS) tcbS)
+    (hv : v.ok env.cs = true) (hp : p.ok env.cs = true) (hnt : v.isText = false)
+    (hext : v.isRange = true → env.ext.has Gen.EXT_RANGE_VALUES = true)
+    (hsp : spellVal v p = t0S :: tlS) (hws : isWsComment t0S.kind = false) (heq : t0S.kind ≠ .eq)
+    (hk : ∀ t ∈ t0S :: tlS, t.kind ≠ .percent ∧ t.kind ≠ .word ∧ t.kind ≠ .ws) :
+    (∀ (T tpre tB tpost : List Tok), T = tpre ++ (tB ++ tpost) → Spells tpre (pre.flatMap SegX.spell) →
+      Spells tB (c07p_comp tmS msS nameS tobS (t0S :: tlS) tcbS) → Spells tpost (post.flatMap SegX.spell) →
+      RunAt (baseOff T) T →
+      PlPieceAt (α := α) T env.cs env.ext tpre ⟨tB, c07x_timerQtySpec env.cs env.ext msS nameS (t0S :: tlS)
+        (fun _ => []) (fun _ q => q.quantity.val.unit = none) T tpre tB⟩) ∧
+    (∀ q : ParsedQuantity α, q.quantity.val.unit = none → c07f_missingUnitEvs q =
+      [.error ⟨.error, .parse, "timer-missing-unit", [Span.pos q.quantity.val.value.value.span.stop]⟩]) := by
+  refine ⟨(C07_planted_document_quantity_family (α := α) env pre post tmS nameS tobS _ tcbS
+    ⟨t0S, by simp, c07p_not_pad_of_not_blank hws⟩ _ _
+    (C07_no_unit_reading env.cs env.ext v p t0S tlS hv hp hnt hext hsp hws heq hk)).2.2 msS sh, ?_⟩
+  intro q hu
+  simp only [c07f_missingUnitEvs, hu, Option.isNone_none, if_true]
+
+/-! non-vacuity: the document `>> source: grandma` / blank line / `Use @x{1/0} now` (every extension off).  The
+    hypotheses of `C07_planted_document` with the zero-denominator instance are decided; the conclusion, evaluated:
+    the report is exactly `division-by-zero` labelled 27..30 (the bytes of `1/0`), no output.  The same step with
+    `#pot{1%kg}` (`cookware-unit` on `%kg`, 30..33) and `~{5}` (`timer-missing-unit` at 27): the instances apply. -/
+def C07_xName : List Tok := [tk .word ['x']]
+def C07_xQ1 : List Tok := [tk .int ['1'], tk .slash ['/'], tk .int ['0']]
+def C07_xB1 : List Tok := c07p_comp (tk .at ['@']) [] C07_xName (tk .openBrace ['{']) C07_xQ1 (tk .closeBrace ['}'])
+def C07_xSpec1 : List Tok → List Tok → List Tok → List (Ev Rat) → Prop :=
+  c07x_ingrQtySpec C07_xName C07_xQ1 C07_zeroDenEvs (fun _ q => q.quantity.val.unit = none ∧ q.unitSep = none)
+def C07_xDoc1 : List (PlBlock Rat × List Tok) :=
+  plantedDoc toyCharSpec C07_dDocA [] C07_plPre' C07_plPost C07_xB1 [C01_nl] C07_xSpec1
+example : render ([] ++ plDocSpec C07_xDoc1) = ">> source: grandma\n\nUse @x{1/0} now\n".toList := by decide
+example : plantedOK C07_coreEnv.cs C07_coreEnv.ext C07_plPre' C07_plPost C07_xB1 = true := by decide
+example : WellSpelled toyCharSpec ([] ++ plDocSpec C07_xDoc1) := by decide
+example : parseFrontmatter toyCharSpec (render ([] ++ plDocSpec C07_xDoc1)) = none := by decide
+theorem C07_xShape1 : PlShape C07_coreEnv.ext .at (tk .at ['@']) [] C07_xName (tk .openBrace ['{']) C07_xQ1
+    (tk .closeBrace ['}']) (C07_plPost.flatMap SegX.spell) :=
+  ⟨rfl, Or.inl ⟨rfl, rfl⟩, by decide, rfl, by decide, rfl,
+   by intro t h; simp [C07_plPost, SegX.spell] at h; subst h; decide⟩
+theorem C07_xNameNB : ∃ t ∈ C07_xName, plainKind t.kind = true ∧ NBs toyCharSpec t.text :=
+  ⟨tk .word ['x'], by simp [C07_xName], rfl, 'x', by simp [tk], by decide⟩
+example : ((parseRecipe (α := Rat) C07_coreEnv (render ([] ++ plDocSpec C07_xDoc1))).diags.toList,
+      (parseRecipe (α := Rat) C07_coreEnv (render ([] ++ plDocSpec C07_xDoc1))).output.isSome) =
+    ([⟨.error, .parse, "division-by-zero", [⟨27, 30⟩]⟩], false) := by decide +kernel
+example : ∃ (T tpre tB tpost : List Tok) (evsB : List (Ev Rat)),
+    T <:+: lex toyCharSpec (render ([] ++ plDocSpec C07_xDoc1)) ∧ T = tpre ++ (tB ++ tpost) ∧
+    Spells tB C07_xB1 ∧ C07_xSpec1 T tpre tB evsB ∧
+    (parseRecipe (α := Rat) C07_coreEnv (render ([] ++ plDocSpec C07_xDoc1))).diags.toList.filter
+      (fun d => d.stage == .parse) = evDiags evsB := by
+  obtain ⟨T, tpre, tB, tpost, evsB, h1, h2, -, h4, -, h6, h7, -⟩ :=
+    C07_planted_document (α := Rat) C07_coreEnv [] C07_dDocA [] C07_plPre' C07_plPost C07_xB1 [C01_nl] C07_xSpec1
+      (by decide) (by decide) (by intro d h; cases h) (by decide)
+      (C07_planted_document_zero_denominator C07_coreEnv C07_plPre' C07_plPost _ C07_xName _ _ _ _ _ C07_xShape1
+        (Or.inl rfl) C07_xNameNB rfl rfl rfl (by decide) (by decide))
+      (by decide) (by decide) (by decide)
+  exact ⟨T, tpre, tB, tpost, evsB, h1, h2, h4, h6, h7⟩
+
+/-! `Use #pot{1%kg} now`, `Use ~{5} now` -/
+def C07_xPot : List Tok := [tk .word "pot".toList]
+def C07_xV1 : AVal := .num (.int ['1'])
+def C07_xV5 : AVal := .num (.int ['5'])
+def C07_xB2 : List Tok := c07p_comp (tk .hash ['#']) [] C07_xPot (tk .openBrace ['{'])
+  (spellVal C07_xV1 {} ++ tk .percent ['%'] :: [tk .word "kg".toList]) (tk .closeBrace ['}'])
+def C07_xB3 : List Tok := c07p_comp (tk .tilde ['~']) [] [] (tk .openBrace ['{']) [tk .int ['5']] (tk .closeBrace ['}'])
+example : plantedOK C07_coreEnv.cs C07_coreEnv.ext C07_plPre' C07_plPost C07_xB2 = true ∧
+    plantedOK C07_coreEnv.cs C07_coreEnv.ext C07_plPre' C07_plPost C07_xB3 = true := by decide
+theorem C07_xShape2 : PlShape C07_coreEnv.ext .hash (tk .hash ['#']) [] C07_xPot (tk .openBrace ['{'])
+    (spellVal C07_xV1 {} ++ tk .percent ['%'] :: [tk .word "kg".toList])
+    (tk .closeBrace ['}']) (C07_plPost.flatMap SegX.spell) :=
+  ⟨rfl, Or.inl ⟨rfl, rfl⟩, by decide, rfl, by decide, rfl,
+   by intro t h; simp [C07_plPost, SegX.spell] at h; subst h; decide⟩
+example := (C07_planted_document_cookware_unit (α := Rat) C07_coreEnv C07_plPre' C07_plPost _ C07_xPot _ _ C07_xV1 {}
+  (tk .percent ['%']) (tk .int ['1']) [tk .word "kg".toList] C07_xShape2 (Or.inl rfl)
+  ⟨tk .word "pot".toList, by simp [C07_xPot], rfl, 'p', by simp [tk], by decide⟩ (by decide) (by decide) rfl
+  (by intro h; cases h) (by decide) (by decide) (by decide) (by decide) rfl
+  ⟨tk .word "kg".toList, by simp, rfl, 'k', by simp [tk], by decide⟩).1
+theorem C07_xShape3 : PlShapeN C07_coreEnv.ext .tilde (tk .tilde ['~']) [] [] (tk .openBrace ['{']) [tk .int ['5']]
+    (tk .closeBrace ['}']) :=
+  ⟨rfl, Or.inl ⟨rfl, rfl⟩, (by intro t h; cases h), rfl, (by decide), rfl⟩
+example := (C07_planted_document_timer_no_unit (α := Rat) C07_coreEnv C07_plPre' C07_plPost _ [] [] _ _ C07_xV5 {}
+  (tk .int ['5']) [] C07_xShape3 (by decide) (by decide) rfl (by intro h; cases h) (by decide) (by decide)
+  (by decide) (by decide)).1
+example : (parseRecipe (α := Rat) C07_coreEnv ">> source: grandma\n\nUse #pot{1%kg} now\n".toList).diags.toList =
+    [⟨.error, .parse, "cookware-unit", [⟨30, 33⟩]⟩] := by decide +kernel
+example : (parseRecipe (α := Rat) C07_coreEnv ">> source: grandma\n\nUse ~{5} now\n".toList).diags.toList =
+    [⟨.error, .parse, "timer-missing-unit", [⟨27, 27⟩]⟩] := by decide +kernel
+
+/-! ### Components without name (wave 8): `#{}`, `@{1%g}`, `#{2}`
+
+  `check_empty_name` runs right after `parse_alias`, before the modifiers and the quantity are read, so
+  `empty-name:*` is the FIRST diagnostic of the component.  `Lemmas/DiagPlaceName.lean`. -/
+
+/-- **Empty name, the remaining forms, wherever the component stands** (not followed by `(`; blank name tokens:
+    `isTextEmpty` of the name text assembled at the name offset).
+    * cookware without quantity `# mods {}` (plain modifier tokens): EXACTLY `empty-name:cookware` (error, parse;
+      labelled with the span of the blank name text), then one `duplicate-modifier` per repeated modifier token and
+      `cookware-recipe-modifier` iff `@` is among them, then the item;
+    * ingredient with a quantity `@{Q}` (no modifiers), for any exact reading `l` / `R` of the quantity tokens:
+      EXACTLY `empty-name:ingredient`, then `l`, then the ingredient carrying the quantity read (`@{1%g}`: `l = []`);
+    * cookware with a quantity `#{Q}`: `empty-name:cookware`, `l`, `cookware-unit` iff the quantity read has a
+      unit, then the item.
+    (`@{}` is `C07_planted_constructs` (5).)  All labels lie inside the construct. -/
+theorem C07_planted_empty_name_family (T A rest : List Tok) (cs : CharSpec) (e : Ext) (hw : WF T) (tm : Tok)
+    (nameT : List Tok) (tob : Tok) (Q : List Tok) (tcb : Tok)
+    (ha : e.has Gen.EXT_COMPONENT_ALIAS = false ∨ ∀ t ∈ nameT, t.kind ≠ .or) :
+    (∀ ms : List Tok, T = A ++ (c07p_comp tm ms nameT tob Q tcb ++ rest) →
+      PlShape e .hash tm ms nameT tob Q tcb rest → SimpleMods ms → (∀ t ∈ Q, isPadK t = true) →
+      (buildText (offAt T (A.length + 1 + ms.length)) nameT).isTextEmpty cs = true →
+      PlPieceAt (α := α) T cs e A ⟨c07p_comp tm ms nameT tob Q tcb, fun evs =>
+        evs = [.error ⟨.error, .parse, "empty-name:cookware",
+            [(buildText (offAt T (A.length + 1 + ms.length)) nameT).span]⟩] ++ dupEvs ms ++ recipeModEvs ms ++
+          [.cookware ⟨⟨simpleFlags ms (offAt T (A.length + 1)),
+            buildText (offAt T (A.length + 1 + ms.length)) nameT, none, none, none⟩,
+          ⟨offAt T A.length, offAt T (A.length + (c07p_comp tm ms nameT tob Q tcb).length)⟩⟩]⟩) ∧
+    (∀ (l : List (Ev α)) (R : ParsedQuantity α → Prop), T = A ++ (c07p_comp tm [] nameT tob Q tcb ++ rest) →
+      (buildText (offAt T (A.length + 1)) nameT).isTextEmpty cs = true → (∃ t ∈ Q, isPadK t = false) →
+      (∀ sq : BP α, sq.cs = cs → sq.ext = e →
+        Sat (parseQuantity (α := α) Q) sq (fun r s' => Pushed l sq s' ∧ R r)) →
+      (PlShape e .at tm [] nameT tob Q tcb rest →
+        PlPieceAt T cs e A ⟨c07p_comp tm [] nameT tob Q tcb, fun evs => ∃ q : ParsedQuantity α, R q ∧
+          evs = .error ⟨.error, .parse, "empty-name:ingredient",
+              [(buildText (offAt T (A.length + 1)) nameT).span]⟩ ::
+            l ++ [.ingredient ⟨⟨⟨Modifiers.empty, Span.pos (offAt T (A.length + 1))⟩, none,
+            buildText (offAt T (A.length + 1)) nameT, none, some q.quantity, none⟩,
+            ⟨offAt T A.length, offAt T (A.length + (c07p_comp tm [] nameT tob Q tcb).length)⟩⟩]⟩) ∧
+      (PlShape e .hash tm [] nameT tob Q tcb rest →
+        PlPieceAt T cs e A ⟨c07p_comp tm [] nameT tob Q tcb, fun evs => ∃ q : ParsedQuantity α, R q ∧
+          evs = .error ⟨.error, .parse, "empty-name:cookware",
+              [(buildText (offAt T (A.length + 1)) nameT).span]⟩ ::
+            (l ++ c07f_cwUnitEvs q) ++ [.cookware ⟨⟨⟨Modifiers.empty, Span.pos (offAt T (A.length + 1))⟩,
+            buildText (offAt T (A.length + 1)) nameT, none, some ⟨q.quantity.val.value, q.quantity.span⟩, none⟩,
+            ⟨offAt T A.length, offAt T (A.length + (c07p_comp tm [] nameT tob Q tcb).length)⟩⟩]⟩)) :=
+  ⟨fun ms hT sh hs hQ hname => c07y_cookware_empty_name_piece T A rest cs e tm ms nameT tob Q tcb hT hw sh hs hQ ha hname,
+   fun l R hT hname hne hQ =>
+    ⟨fun sh => c07y_ingredient_empty_name_qty_piece T A rest cs e tm nameT tob Q tcb hT hw sh ha hname hne l R hQ,
+     fun sh => c07y_cookware_empty_name_qty_piece T A rest cs e tm nameT tob Q tcb hT hw sh ha hname hne l R hQ⟩⟩
+
+/-! non-vacuity: `Use #{} now` (every extension off): the hypotheses of the first clause hold on the tokens of
+    the step, and the real run (model evaluated on the document) reports exactly `empty-name:cookware` labelled
+    with the empty name position 5..5, inside the construct 4..7; `@{1%g}` gives `empty-name:ingredient` only. -/
+def C07_yToks : List Tok :=
+  [⟨.word, "Use".toList, 0⟩, ⟨.ws, [' '], 3⟩, ⟨.hash, ['#'], 4⟩, ⟨.openBrace, ['{'], 5⟩, ⟨.closeBrace, ['}'], 6⟩,
+   ⟨.ws, [' '], 7⟩, ⟨.word, "now".toList, 8⟩]
+theorem C07_yWF : WF C07_yToks :=
+  WF.of_chain (off := 0) (by simp [C07_yToks, Chain, Tok.stop, utf8Len]; decide)
+    (by intro t ht; simp [C07_yToks] at ht; rcases ht with rfl | rfl | rfl | rfl | rfl | rfl | rfl <;> simp)
+    (by simp [C07_yToks])
+example : PlPieceAt (α := Rat) C07_yToks toyCharSpec ⟨0⟩ [⟨.word, "Use".toList, 0⟩, ⟨.ws, [' '], 3⟩]
+    ⟨c07p_comp ⟨.hash, ['#'], 4⟩ [] [] ⟨.openBrace, ['{'], 5⟩ [] ⟨.closeBrace, ['}'], 6⟩, fun evs =>
+      evs = [.error ⟨.error, .parse, "empty-name:cookware", [⟨5, 5⟩]⟩,
+        .cookware ⟨⟨⟨Modifiers.empty, Span.pos 5⟩, buildText 5 [], none, none, none⟩, ⟨4, 7⟩⟩]⟩ :=
+  (C07_planted_empty_name_family (α := Rat) C07_yToks [⟨.word, "Use".toList, 0⟩, ⟨.ws, [' '], 3⟩]
+    [⟨.ws, [' '], 7⟩, ⟨.word, "now".toList, 8⟩] toyCharSpec ⟨0⟩ C07_yWF ⟨.hash, ['#'], 4⟩ [] ⟨.openBrace, ['{'], 5⟩ []
+    ⟨.closeBrace, ['}'], 6⟩ (Or.inl rfl)).1 [] rfl
+    ⟨rfl, Or.inl ⟨rfl, rfl⟩, (by intro t h; cases h), rfl, (by intro t h; cases h), rfl,
+      (by intro t h; simp at h; subst h; decide)⟩
+    (by intro t h; cases h) (by intro t h; cases h) (by decide)
+example : (parseRecipe (α := Rat) C07_coreEnv "Use #{} now\n".toList).diags.toList =
+    [⟨.error, .parse, "empty-name:cookware", [⟨5, 5⟩]⟩] := by decide +kernel
+example : (parseRecipe (α := Rat) C07_coreEnv "Use @{1%g} now\n".toList).diags.toList =
+    [⟨.error, .parse, "empty-name:ingredient", [⟨5, 5⟩]⟩] := by decide +kernel
+
+/-- **Empty name WITH an alias, wherever the component stands** (`@|x{}`, `#|x{}`, `@ |x|y{}`; COMPONENT_ALIAS on).
+    Name tokens whose first `|` is at index `i`, the tokens BEFORE it blank (the name `parse_alias` returns), plain
+    modifier tokens, blank braces, not followed by `(`.  One iteration pushes EXACTLY the alias errors `aliasEvs`
+    (`multiple-aliases:*` iff another `|` follows, else `empty-alias:*` iff the alias text is blank), then
+    `empty-name:<component>` (error, parse; the span of the blank text before the `|`), then one `duplicate-modifier`
+    per repeated modifier token (cookware: `cookware-recipe-modifier` iff `@` is among them), then the component. -/
+theorem C07_planted_empty_name_alias (T A rest : List Tok) (cs : CharSpec) (e : Ext) (hw : WF T) (tm : Tok)
+    (ms nameT : List Tok) (tob : Tok) (Q : List Tok) (tcb : Tok) (i : Nat)
+    (hT : T = A ++ (c07p_comp tm ms nameT tob Q tcb ++ rest)) (hs : SimpleMods ms)
+    (hQ : ∀ t ∈ Q, isPadK t = true)
+    (he : e.has Gen.EXT_COMPONENT_ALIAS = true) (hi : nameT.findIdx? (fun t => t.kind == .or) = some i)
+    (hname : (buildText (offAt T (A.length + 1 + ms.length)) (nameT.take i)).isTextEmpty cs = true) :
+    (PlShape e .at tm ms nameT tob Q tcb rest →
+      PlPieceAt (α := α) T cs e A ⟨c07p_comp tm ms nameT tob Q tcb, fun evs =>
+        evs = aliasEvs "ingredient" nameT i cs ++
+          [.error ⟨.error, .parse, "empty-name:ingredient",
+            [(buildText (offAt T (A.length + 1 + ms.length)) (nameT.take i)).span]⟩] ++ dupEvs ms ++
+          [.ingredient ⟨⟨simpleFlags ms (offAt T (A.length + 1)), none,
+            buildText (offAt T (A.length + 1 + ms.length)) (nameT.take i), aliasRes nameT i cs, none, none⟩,
+          ⟨offAt T A.length, offAt T (A.length + (c07p_comp tm ms nameT tob Q tcb).length)⟩⟩]⟩) ∧
+    (PlShape e .hash tm ms nameT tob Q tcb rest →
+      PlPieceAt (α := α) T cs e A ⟨c07p_comp tm ms nameT tob Q tcb, fun evs =>
+        evs = aliasEvs "cookware" nameT i cs ++
+          [.error ⟨.error, .parse, "empty-name:cookware",
+            [(buildText (offAt T (A.length + 1 + ms.length)) (nameT.take i)).span]⟩] ++ dupEvs ms ++
+          recipeModEvs ms ++
+          [.cookware ⟨⟨simpleFlags ms (offAt T (A.length + 1)),
+            buildText (offAt T (A.length + 1 + ms.length)) (nameT.take i), aliasRes nameT i cs, none, none⟩,
+          ⟨offAt T A.length, offAt T (A.length + (c07p_comp tm ms nameT tob Q tcb).length)⟩⟩]⟩) :=
+  ⟨fun sh => c07y_ingredient_empty_name_alias_piece T A rest cs e tm ms nameT tob Q tcb i hT hw sh hs hQ he hi hname,
+   fun sh => c07y_cookware_empty_name_alias_piece T A rest cs e tm ms nameT tob Q tcb i hT hw sh hs hQ he hi hname⟩
+
+/-! non-vacuity: `Use @|x{} now` under COMPONENT_ALIAS: the hypotheses hold on the step's tokens (first `|` at index 0,
+    nothing before it); the real run reports exactly `empty-name:ingredient` at 5..5 (the alias `x` is fine). -/
+def C07_yToks2 : List Tok :=
+  [⟨.word, "Use".toList, 0⟩, ⟨.ws, [' '], 3⟩, ⟨.at, ['@'], 4⟩, ⟨.or, ['|'], 5⟩, ⟨.word, ['x'], 6⟩,
+   ⟨.openBrace, ['{'], 7⟩, ⟨.closeBrace, ['}'], 8⟩, ⟨.ws, [' '], 9⟩, ⟨.word, "now".toList, 10⟩]
+theorem C07_yWF2 : WF C07_yToks2 :=
+  WF.of_chain (off := 0) (by simp [C07_yToks2, Chain, Tok.stop, utf8Len]; decide)
+    (by intro t ht; simp [C07_yToks2] at ht; rcases ht with rfl | rfl | rfl | rfl | rfl | rfl | rfl | rfl | rfl <;> simp)
+    (by simp [C07_yToks2])
+example := (C07_planted_empty_name_alias (α := Rat) C07_yToks2 [⟨.word, "Use".toList, 0⟩, ⟨.ws, [' '], 3⟩]
+    [⟨.ws, [' '], 9⟩, ⟨.word, "now".toList, 10⟩] toyCharSpec ⟨Gen.EXT_COMPONENT_ALIAS⟩ C07_yWF2 ⟨.at, ['@'], 4⟩ []
+    [⟨.or, ['|'], 5⟩, ⟨.word, ['x'], 6⟩] ⟨.openBrace, ['{'], 7⟩ [] ⟨.closeBrace, ['}'], 8⟩ 0 rfl
+    (by intro t h; cases h) (by intro t h; cases h) (by decide) (by decide) (by decide)).1
+    ⟨rfl, Or.inl ⟨by decide, rfl⟩, by decide, rfl, (by intro t h; cases h), rfl,
+      (by intro t h; simp at h; subst h; decide)⟩
+example : (parseRecipe (α := Rat) { C07_coreEnv with ext := ⟨Gen.EXT_COMPONENT_ALIAS⟩ }
+      "Use @|x{} now\n".toList).diags.toList =
+    [⟨.error, .parse, "empty-name:ingredient", [⟨5, 5⟩]⟩] := by decide +kernel
 
 end Cook
